@@ -8,6 +8,7 @@ R-param - pov -> noverlap = nxseg*pov, nxseg -> nperseg, Hann window for 'per'.
 Not decided: Welch equivalence, PSD-ness, Parseval, gain/delay tolerances (scipy.signal.csd and numerics).
 """
 import ast
+import copy
 
 from ..absint import Interp, CTX, Cst, D, Tup
 from .. import hd, astq, symidx
@@ -48,6 +49,8 @@ def check(prog, run):
     fi = prog.func(FN)
     f = rel(prog.mods[fi.mod].path)
     pairing(prog, run, fi, f)
+    pairing_by_hand(prog, run, fi, f)
+    welch_by_hand(prog, run, fi, f)
     cor_grid(prog, run, fi, f)
     # the single-setup run methods hand their run parameters to the estimator
     n_callers = 0
@@ -102,7 +105,7 @@ def pairing(prog, run, fi, f):
         pf = astq.PrunedFn(fi, {mpar: meth}, subst=True) if mpar is not None else fi
         found = [c for c, nm in astq.calls_resolved(prog, pf, lambda n: n == "scipy.signal.csd")]
         if not found:
-            run.ob("R-pairing", fi.qual, "csd", False, f"no scipy.signal.csd call in SD_est for method '{meth}'", witness="missing", file=f, config=f"method={meth}")
+            run.ob("R-pairing", fi.qual, "csd", None, f"no scipy.signal.csd call in SD_est for method '{meth}': the estimator is written another way, the pairing rule does not read it", witness="missing", file=f, config=f"method={meth}")
         sites += [(meth, pf, c) for c in found]
     full = fi
     for i, (meth, fi, c) in enumerate(sites):
@@ -178,6 +181,112 @@ def check(prog, run):
     cor_chain(prog, run)
 
 
+def pairing_by_hand(prog, run, fi, f):
+    """an estimator that multiplies the segment transforms itself: entry (i, j) = conj(X_all[i]) . X_ref[j] - the conjugate sits on the
+    transform of the FIRST argument (scipy.signal.csd's convention, the library's phase convention); and the first output index of the
+    pair product belongs to the first argument"""
+    raw = prog.raw
+    fr = raw.functions[fi.qual]
+    pos, _, _, _ = astq.params_of(fr.node)
+    p_all, p_ref = pos[0], pos[1]
+    n = 0
+    for q in sorted(x for x in raw.reachable([fr.qual]) if x in raw.functions):
+        g = raw.functions[q]
+        gp = astq.params_of(g.node)[0] + astq.params_of(g.node)[1]
+        for c in ast.walk(g.node):
+            if not (isinstance(c, ast.Call) and astq.src(c.func).split(".")[-1] == "einsum" and len(c.args) == 3 and isinstance(c.args[0], ast.Constant) and "->" in str(c.args[0].value)):
+                continue
+            a, b = c.args[1], c.args[2]
+
+            def conj_of(x):
+                if isinstance(x, ast.Call) and isinstance(x.func, ast.Attribute) and x.func.attr in ("conj", "conjugate") and not x.args:
+                    return x.func.value
+                if isinstance(x, ast.Call) and astq.src(x.func).split(".")[-1] in ("conj", "conjugate") and len(x.args) == 1:
+                    return x.args[0]
+                return None
+            ca, cb = conj_of(a), conj_of(b)
+            if (ca is None) == (cb is None):
+                continue
+            # which argument(s) of SD_est each operand is made from
+            def side(x):
+                roots = {y.id for y in ast.walk(x) if isinstance(y, ast.Name)}
+                if g.node is fr.node:
+                    return {k_ for k_, p_ in (("all", p_all), ("ref", p_ref)) if roots & astq._depends_on(g.node, {p_}, data_only=True)}
+                src_params = [p_ for p_ in gp if roots & astq._depends_on(g.node, {p_}, data_only=True)]
+                sides = set()
+                for rec in astq.forwarded_args(raw, fr, g.qual, depth=3):
+                    for p_ in src_params:
+                        e_ = rec["args"].get(p_)
+                        if e_ is None:
+                            continue
+                        nm_ = {y.id for y in ast.walk(e_) if isinstance(y, ast.Name)}
+                        sides |= {k_ for k_, pp in (("all", p_all), ("ref", p_ref)) if pp in nm_}
+                return sides
+            which = side(ca if ca is not None else cb)
+            other = side(b if ca is not None else a)
+            n += 1
+            ok = True if (which == {"all"} and "ref" in other) else (False if (which == {"ref"} and "all" in other) else None)
+            which = next(iter(which)) if len(which) == 1 else None
+            run.ob("R-pairing", fi.qual, "pair product by hand: conj on the transform of the first argument", ok,
+                   f"`{astq.src(c, 70)}` in {g.node.name}: the conjugated factor is made from `{ {'all': p_all, 'ref': p_ref}.get(which, '?') }`" +
+                   ("" if ok is not False else f" - scipy.signal.csd(x, y) (and the other estimator) gives conj(X) . Y: the phase of every off-diagonal entry changes sign"),
+                   witness=f"conj on {which}", file=f, node=c, config="by hand")
+    return n
+
+
+def welch_by_hand(prog, run, fi, f):
+    """an estimator that cuts the segments itself (sliding windows taken every `step` samples) instead of calling scipy.signal.csd:
+    Welch's estimate with overlap pov needs step = nperseg - noverlap = nxseg - nxseg*pov, expressed in SD_est's own parameters
+    through every helper on the way; and the taper of the periodogram is the Hann window"""
+    prog = prog.raw             # (the calls as written: the helpers on the way keep their parameters)
+    fi = prog.functions[fi.qual]
+    pos, _, _, _ = astq.params_of(fi.node)
+    mpar = "method" if "method" in pos else (pos[4] if len(pos) > 4 else None)
+    pf = astq.PrunedFn(fi, {mpar: "per"}, subst=True, renormalise=False) if mpar is not None else fi
+    if [c for c, nm in astq.calls_resolved(prog, pf, lambda n: n == "scipy.signal.csd")]:
+        return
+    want = P.s("nxseg") - P.s("nxseg") * P.s("pov")
+    want2 = P.s("nperseg") - P.s("nxseg") * P.s("pov")         # (nperseg = nxseg for the periodogram, as long as the record is longer than a segment)
+    n = 0
+    reach = [q for q in prog.reachable([fi.qual]) if q in prog.functions]
+    for q in reach:
+        g = prog.functions[q]
+        for sub in ast.walk(g.node):
+            if not (isinstance(sub, ast.Subscript) and isinstance(sub.value, ast.Call) and astq.src(sub.value.func).split(".")[-1] == "sliding_window_view"):
+                continue
+            steps = [e.step for e in astq.index_elts(sub) if isinstance(e, ast.Slice) and e.step is not None]
+            if len(steps) != 1:
+                continue
+            st = astq.expr_at(g, sub, steps[0])
+            if isinstance(st, ast.BoolOp) and isinstance(st.op, ast.Or) and isinstance(st.values[0], ast.Name):
+                st = st.values[0]           # `step or nperseg`: the value handed in, when one is
+            exprs = []
+            if g.node is fi.node:
+                exprs = [(astq.expr_at(pf, sub, steps[0]), sub)]
+            else:
+                gp = set(astq.params_of(g.node)[0] + astq.params_of(g.node)[1])
+                for rec in astq.forwarded_args(prog, pf, g.qual, depth=3):
+                    names = {x.id for x in ast.walk(st) if isinstance(x, ast.Name) and x.id in gp}
+                    if all(rec["args"].get(nm_) is not None for nm_ in names):
+                        exprs.append((astq.fold(astq._SubstEnv({nm_: rec["args"][nm_] for nm_ in names}).visit(copy.deepcopy(st))), rec["outer_call"]))
+                    elif any(nm_ in rec["missing"] for nm_ in names):
+                        exprs.append((None, rec["outer_call"]))       # left at the helper's default (no overlap): not this branch's business when pov is unused
+            for e, at in exprs:
+                n += 1
+                if e is None:
+                    run.ob("R-param", fi.qual, "segment stride = nxseg - nxseg*pov", None, f"stride of the segments in {g.node.name} is left at its default at `{astq.src(at, 50)}`", file=f, node=at, config="by hand")
+                    continue
+                v = symidx.SymEval(prog, pf).ev(e)
+                known = v is not None and all(s_ in ("nxseg", "pov", "nperseg") for k_ in v.t for s_, _e in k_)
+                ok = None if not known else (v == want or v == want2)
+                run.ob("R-param", fi.qual, "segment stride = nxseg - nxseg*pov", ok,
+                       f"segments are taken every `{astq.src(e, 50)}` = {v!r} samples (in {g.node.name})" + ("" if ok is not False else
+                       f"; Welch's average with overlap pov moves on by nperseg - noverlap = {want!r} - the two agree only for pov = 0.5"),
+                       witness=f"{v!r}", file=f, node=at, config="by hand")
+    if not n:
+        run.ob("R-param", fi.qual, "segment stride = nxseg - nxseg*pov", None, "neither a scipy.signal.csd call nor segments cut with sliding_window_view(..)[::step] found", file=f, config="by hand")
+
+
 def cor_chain(prog, run):
     run.rule("R-cor-chain", "correlogram estimator: raw (boxcar, non-overlapping, zero-padded) periodogram -> inverse FFT -> exponential lag window -> FFT", 4)
     fi = prog.func(FN)
@@ -197,12 +306,17 @@ def cor_chain(prog, run):
         for a, b in ((inner.left, inner.right), (inner.right, inner.left)):
             if isinstance(a, ast.Call) and astq.callee_name(prog, pf, a) == "numpy.fft.irfft":
                 ir, win = a, b
-    run.ob("R-cor-chain", fi.qual, "Sy = rfft(irfft(P) * window)", bool(ok_outer and ok_mid and ir is not None), f"`{astq.src(x, 100)}`", witness=astq.src(x, 80), file=f, node=rets[-1])
+    ok_chain = bool(ok_outer and ok_mid and ir is not None)
+    if not ok_chain and not any(isinstance(n_, ast.Call) and "fft" in astq.src(n_.func) for n_ in ast.walk(x)):
+        ok_chain = None         # the returned value could not be written out down to the transforms: nothing recognised, nothing judged
+    run.ob("R-cor-chain", fi.qual, "Sy = rfft(irfft(P) * window)", ok_chain, f"`{astq.src(x, 100)}`", witness=astq.src(x, 80), file=f, node=rets[-1])
     if ir is None:
         return
     src_p = ir.args[0] if ir.args else None
     okp = isinstance(src_p, ast.Subscript) and isinstance(src_p.slice, ast.Constant) and src_p.slice.value == 1 and isinstance(src_p.value, ast.Call) \
         and astq.callee_name(prog, pf, src_p.value) == "scipy.signal.csd"
+    if not okp and (src_p is None or isinstance(src_p, ast.Name) or not any(isinstance(n_, ast.Call) for n_ in ast.walk(src_p))):
+        okp = None              # where the transformed spectrum comes from could not be written out
     run.ob("R-cor-chain", fi.qual, "P = cross spectrum returned by csd", okp, f"`{astq.src(src_p, 60) if src_p is not None else None}`", witness=astq.src(src_p, 60) if src_p is not None else "none", file=f, node=rets[-1])
     if okp:
         c = src_p.value
